@@ -356,6 +356,23 @@ func runRange(c *hx.Ctx, or *hx.Oracle, rc rangeCase, verbose bool) {
 				c.Violation("model-vs-"+impl+":range", fmt.Sprintf("%s %s: impl %s model %v", rc.Shape, rc.Tamper, g, rep), rc, true)
 			}
 		}
+		if impl == "trie2" && strings.HasPrefix(g, "ok") && !hasDupKeys(rc.Keys) {
+			// the certified verifier (theorem range2_cert_sound): code accepts => certificate holds,
+			// and the recomputed flag is the code's
+			rep := or.AskUntil(rc.oracleLine("2c"), "end")
+			cg := ""
+			if len(rep) == 1 {
+				cg = rep[0]
+			}
+			c.Hist["range:certified:"+strings.Fields(cg+" ?")[0]]++
+			if cg != g {
+				c.Hist["range:accepted-without-certificate:"+rc.Tamper]++
+				if ct.claimTrue(rc.First, rc.Keys, rc.Values, strings.HasSuffix(g, "true")) {
+					// a true statement accepted although the certificate fails: the certificate would be too strong
+					c.Violation("model:certificate-rejects-true-claim", fmt.Sprintf("%s %s: code %s certified %s", rc.Shape, rc.Tamper, g, cg), rc, true)
+				}
+			}
+		}
 		if strings.HasPrefix(g, "ok") {
 			more := strings.HasSuffix(g, "true")
 			if ct.claimTrue(rc.First, rc.Keys, rc.Values, more) {
@@ -390,6 +407,18 @@ func runRange(c *hx.Ctx, or *hx.Oracle, rc rangeCase, verbose bool) {
 			c.Hist["range:"+impl+":panic-on-altered-input:"+rc.Tamper]++
 		}
 	}
+}
+
+func hasDupKeys(ks []string) bool {
+	seen := map[string]bool{}
+	for _, k := range ks {
+		x := hexFbig(k).Text(16)
+		if seen[x] {
+			return true
+		}
+		seen[x] = true
+	}
+	return false
 }
 
 func between(a, b *big.Int) *big.Int { // a value strictly between, or nil
